@@ -329,6 +329,18 @@ func (in *Interp) intrinsic(fn *ssa.Function, args []Value, site *ssa.Call) (Val
 		return in.symbolicNow(fn), true
 	case "time.Sleep":
 		return nil, true
+	case "time.NewTimer", "time.NewTicker", "time.AfterFunc":
+		// timers never fire in the sequential model (recorded)
+		in.stub(full + " (timer object that never fires)")
+		rt := fn.Signature.Results().At(0).Type()
+		slot := new(Value)
+		*slot = in.zero(rt.(*types.Pointer).Elem())
+		return Pointer{P: slot}, true
+	case "(*time.Timer).Stop", "(*time.Ticker).Stop", "(*time.Timer).Reset":
+		if full == "(*time.Ticker).Stop" {
+			return nil, true
+		}
+		return ts.Bool(false), true
 	case "(time.Time).Add":
 		// contract-level model: the result is the wall-clock instant (sec', nsec')
 		// with sec'*1e9+nsec' = sec*1e9+nsec+d and 0 <= nsec' < 1e9 (no saturation:
